@@ -58,10 +58,11 @@ ExpView(s) == [stack |-> s.vm.stack, alt |-> s.vm.alt, cond |-> CondView(s.vm.co
                opcount |-> s.vm.opcount, cbegin |-> s.vm.cbegin, cspos |-> s.vm.cspos, oppos |-> s.vm.oppos,
                weight |-> s.vm.weight, done |-> s.done, seq |-> s.seq,
                tcei |-> IF s.tce.active THEN s.tce.i ELSE -1, tcek |-> IF s.tce.active THEN s.tce.k ELSE <<>>]
-ObsView(ev) == [stack |-> HexSeq(ev.stack), alt |-> HexSeq(ev.alt), cond |-> ev.cond, pc |-> ev.pc,
-                opcount |-> ev.opcount, cbegin |-> ev.cbegin, cspos |-> ev.cspos, oppos |-> ev.oppos,
-                weight |-> ev.weight, done |-> ev.done, seq |-> ev.seq, tcei |-> ev.tce.i, tcek |-> H(ev.tce.k)]
-Mismatch(s, ev) == LET e == ExpView(s) o == ObsView(ev) IN {f \in (SetOf(cur.cmp) \cap DOMAIN e) : e[f] # o[f]}
+ObsField(ev, f) ==
+    CASE f = "stack" -> HexSeq(ev.stack) [] f = "alt" -> HexSeq(ev.alt) [] f = "cond" -> ev.cond [] f = "pc" -> ev.pc [] f = "opcount" -> ev.opcount
+      [] f = "cbegin" -> ev.cbegin [] f = "cspos" -> ev.cspos [] f = "oppos" -> ev.oppos [] f = "weight" -> ev.weight [] f = "done" -> ev.done
+      [] f = "seq" -> ev.seq [] f = "tcei" -> ev.tce.i [] f = "tcek" -> H(ev.tce.k)
+Mismatch(s, ev) == LET e == ExpView(s) IN {f \in (SetOf(cur.cmp) \cap DOMAIN e) : e[f] # ObsField(ev, f)}
 
 \* printable form of the expected state
 Show(s) == [stack |-> [i \in 1..Len(s.vm.stack) |-> BytesToHex(s.vm.stack[i])],
@@ -86,7 +87,7 @@ Init == /\ l = 1 /\ sess = <<>> /\ cur = [id |-> "none", cmp |-> <<>>] /\ mode =
         /\ stats = [execs |-> 0, events |-> 0, unspec |-> 0, refused |-> 0, failed |-> 0, finished |-> 0, skipped |-> 0]
 
 DoOpen(ev) ==
-    /\ cur' = ev /\ sess' = MkSession(ev) /\ mode' = IF Has(ev, "cli") THEN "run" ELSE "await"
+    /\ cur' = ev /\ sess' = MkSession(ev) /\ mode' = IF Has(ev, "cli") \/ Has(ev, "repl") THEN "run" ELSE "await"
     /\ stats' = Bump("execs") /\ UNCHANGED <<divs, cov>>
 
 \* Opened / Refused must agree with the admissibility rule of the domain (C01) and the size rule (C10)
@@ -200,6 +201,23 @@ DoRun(ev) ==
          ELSE /\ divs' = Append(divs, Div("step refused as 'at end' but the session is not finished (or state changed)",
                                           [fields |-> Mismatch(sess, ev), exp |-> Show(sess)], ev))
               /\ mode' = "skip" /\ UNCHANGED <<cov, sess, cur, stats>>)
+    ELSE IF ev.e = "Listing" THEN
+        \* the REPL's `print`: the pre-rendered listing and the position marker (C12)
+        LET s0 == MkSession(cur)
+            expLines == ExpectedListing(s0)
+            obsLines == [i \in 1..Len(ev.lines) |-> ev.lines[i]]
+            expMarker == IF sess.seq < Len(expLines) /\ ~sess.done THEN sess.seq ELSE -1
+            \* what the next step executes must be what the marked line says
+            nextText == IF sess.tce.active THEN (IF sess.tce.i < PathLen(sess.tce.control) THEN "Branch: " \o BytesToHex(PathNode(sess.tce.control, sess.tce.i)) ELSE "CheckTapTweak")
+                        ELSE IF sess.vm.pc < Len(sess.ctx.script) THEN
+                             (LET g == GetOp(sess.ctx.script, sess.vm.pc) IN IF g.data # <<>> THEN BytesToHex(g.data) ELSE DisplayName(g.op))
+                        ELSE IF sess.p2sh THEN "<<< P2SH script >>>" ELSE IF sess.succ # <<>> THEN "<<< scriptPubKey >>>" ELSE ""
+            okLines == obsLines = expLines
+            okMarker == ev.marker = expMarker /\ (expMarker >= 0 => (expMarker + 1 <= Len(obsLines) /\ obsLines[expMarker + 1] = nextText))
+        IN IF okLines /\ okMarker THEN /\ cov' = cov \cup {<<"listing", IF expMarker >= 0 THEN "marked" ELSE "nothing-pending">>} /\ UNCHANGED <<divs, sess, cur, mode, stats>>
+           ELSE /\ divs' = Append(divs, Div("listing / position marker", [op |-> "listing", lines |-> expLines, marker |-> expMarker, next |-> nextText,
+                                                                           fields |-> (IF okLines THEN {} ELSE {"lines"}) \cup (IF okMarker THEN {} ELSE {"marker"})], ev))
+                /\ mode' = "skip" /\ UNCHANGED <<cov, sess, cur, stats>>
     ELSE IF ev.e = "Run" THEN Judge(ev, Continue(sess), "run", TRUE)
     ELSE IF ev.e = "CliRun" THEN
         \* one non-interactive run of the real binary: exit status, terminating signal, stdout lines, stderr text
